@@ -48,7 +48,10 @@ def make_scenarios(ctx, count):
         glob = G.rand_global(rng, icon_size=rng.choice([0, 1, 300, 2000, 9000]))
         hl = rng.choice([0, 1, 5, 30, 100, 400]) if rng.random() < 0.8 else rng.randint(0, 400)
         style = rng.choice(["session", "flood", "hijack", "noise", "icon"])
+        if i % 12 == 5:
+            style = "worn"
         resume = None
+        worn = None
         if style == "icon":
             # a session in which the icon (and other large properties) were fetched; the platform's icon is replaced
             # afterwards, at the latest right before the Reset
@@ -67,6 +70,22 @@ def make_scenarios(ctx, count):
                 offs = rng.choice([[0], [0, P], [0, P, 0], [P]])
                 h += [G.f_qlt(rng, net, m0, typ=typ, off=o) for o in offs]
                 resume = (typ, rng.choice([P, P, 2 * P, 1]))
+        elif style == "worn":
+            # an interface with a long life behind it: a few stations were observed once, then the same short exchange was
+            # repeated N times (N around 2^8 and 2^16: what a generation or epoch counter in the state might hold), and the
+            # stations observed at the very beginning show up again after the Reset
+            m0 = rng.randrange(3)
+            xs = [(G.rand_mac(rng), rng.choice(net.strangers)) for _ in range(rng.randint(1, 3))]
+            h = [G.f_discover(rng, net, m=m0, tos=0)] + [W.probe(net.own, es, net.own, rs) for es, rs in xs]
+            if rng.random() < 0.5:
+                h.append(G.f_query(rng, net, m0))
+            N = rng.choice([255, 256, 257, 65535, 65536, 65537, 2 * 65535, 131072]) - rng.choice([0, 1, 1, 2])
+            unit = rng.choice(["reset", "reset", "quick-reset", "probe+query", "discover+reset"])
+            y = (G.rand_mac(rng), rng.choice(net.strangers))
+            units = {"reset": [W.reset(net.mappers[m0], tos=0)], "quick-reset": [W.reset(net.mappers[m0], tos=1)],
+                     "probe+query": [W.probe(net.own, y[0], net.own, y[1]), G.f_query(rng, net, m0)],
+                     "discover+reset": [G.f_discover(rng, net, m=m0, tos=0, gen=3), W.reset(net.mappers[m0], tos=0)]}
+            worn = (N, units[unit], xs, m0, unit)
         elif style == "flood":
             h = [G.f_discover(rng, net, m=0, tos=0)] + [G.f_probe(rng, net, to_me=True) for _ in range(hl)] + \
                 [G.f_query(rng, net, 0)] * rng.randint(0, 1)
@@ -82,6 +101,10 @@ def make_scenarios(ctx, count):
             h = G.session_history(rng, net, mtu, hl, p_mut=0.2)
         c = continuation(rng, net, mtu, rng.randint(10, 60), query_first=(style == "icon" and rng.random() < 0.6) or rng.random() < 0.05,
                          resume=resume)
+        if worn:
+            # what was observed before the long history is observed again, and asked for
+            c = [G.f_discover(rng, net, m=worn[3], tos=0)] + [W.probe(net.own, es, net.own, rs) for es, rs in worn[2]] + \
+                [G.f_query(rng, net, worn[3])] + c
         s = H.Scenario("r%d" % i)
         kw = H.iface_kw(cfg)
         s.iface(0, **kw)
@@ -105,6 +128,10 @@ def make_scenarios(ctx, count):
             if fr is None:
                 break
             s.frame(0, fr)
+        if worn:
+            s.add("OPT txhex=0")
+            s.add("FR 0 %d %s" % (worn[0], " ".join(fr.hex() for fr in worn[1])))
+            s.add("OPT txhex=1")
         rs = rng.choice([0, 0, 1, 0x4242, 0xFFFF, rng.getrandbits(16)])
         s.frame(0, W.reset(rng.choice(net.mappers), tos=0, seq=rs) if rng.random() < 0.7 else
                 W.reset(rng.choice(net.mappers), tos=0, seq=rs, real_dst=net.own, eth_dst=net.own))
@@ -118,7 +145,8 @@ def make_scenarios(ctx, count):
         s.frame(1, filler)
         for fr in c:
             s.frame(1, fr)
-        s.meta = dict(nc=len(c) + 1, nh=len(h), style=style, c=c, switched=switch_at is not None)
+        s.meta = dict(nc=len(c) + 1, nh=len(h) + (worn[0] if worn else 0), style=style, c=c, switched=switch_at is not None,
+                      worn="%s x %d" % (worn[4], worn[0]) if worn else None)
         scns.append(s)
     return scns
 
@@ -143,6 +171,8 @@ def monitor(scn, sobj, rep, sf, ck):
     rep.evaluations += nc
     rep.count("pairs")
     rep.count("style:" + sobj.meta["style"])
+    if sobj.meta.get("worn"):
+        rep.count("worn:" + ("2^16" if sobj.meta["nh"] > 60000 else "2^8"))
     if sobj.meta["switched"]:
         rep.count("icon_switched_during_history")
     sent = sum(len(x[0]) for x in tq)
@@ -180,5 +210,7 @@ def run(ctx):
     run_monitored(ctx, binary, scns, monitor, tag="reset")
     c = rep.counters
     rep.need("pairs", c.get("pairs", 0), ctx.n(1000, 25000))
+    rep.need("worn:2^16 (an exchange repeated about 2^16 times before the Reset)", c.get("worn:2^16", 0), 20)
+    rep.need("worn:2^8", c.get("worn:2^8", 0), 10)
     rep.need("icon_switched_during_history", c.get("icon_switched_during_history", 0), 100)
     rep.need("style:icon (large properties fetched, icon replaced before the Reset)", c.get("style:icon", 0), 100)
